@@ -162,7 +162,7 @@ def instrument(rec: Rec, poison: dict) -> Iterator[None]:
             watched.add(id(t))
             kind = classify_actor(t.get_name())
             rec.add("hungTask", kind, id(t))
-            t.add_done_callback(lambda _t, kind=kind: rec.add("hungEnd", kind, id(_t)))
+            t.add_done_callback(lambda _t, kind=kind: rec.add("hungEnd", kind, id(_t), *_how(_t)))
 
     async def r_stop(tasks: Any, *, title: str, **kw: Any) -> Any:
         tag = {"Root": "rtStopRoots", "Hung": "rtStopHung", "Core": "scStopCore"}.get(title, "stop:" + title)
